@@ -602,6 +602,8 @@ func c17Gen(r *Run) {
 	// top-level store write (one transaction / one bulk write).  Counted on the real kvgraph through
 	// C04's counting store wrapper, on the states C04 uses, for every edit kind.
 	c17Units(r)
+	// the read paths against complete writer calls placed inside their life (c17_read.go)
+	c17ReadGen(r)
 	// last, so that a racing or crashing session (a concrete failing input) is reported first:
 	// the lockset table by name, for the replay file of a broken obligation
 	r.Emit(map[string]interface{}{"op": "reset"}, map[string]interface{}{"r": "ok"})
@@ -662,6 +664,8 @@ func c17Replay(r *Run, ops []map[string]interface{}) {
 		switch op["op"] {
 		case "lockset":
 			r.Emit(map[string]interface{}{"op": "lockset"}, map[string]interface{}{"unexplained": []interface{}{}, "stale": 0})
+		case "readpath":
+			r.Emit(op, c17ReadExec(op))
 		case "units":
 			hs, _ := op["hist"].([]interface{})
 			call, _ := op["call"].(map[string]interface{})
